@@ -1,7 +1,7 @@
 (* Dispatch/DC20.v — entry points of the C20 model for the correspondence check. *)
 From Coq Require Import String.
 From V Require Import Base.Prelude Base.Ints Base.Disp Model.Helper Model.Base58 Model.Bech32
-  Model.Bcur.
+  Model.Bcur Model.BcurStr.
 Open Scope string_scope.
 Open Scope Z_scope.
 
@@ -72,6 +72,32 @@ Definition dispatch (H : oracle) (fn : list Z) (args : list val) : val :=
     match args with
     | [VL l] => match parts_of l with
                 | Some ps => vres_b (multi_parse (o_sha256 H) ps)
+                | None => bad_args end
+    | _ => bad_args end
+  (* ---- the string layer (Model/BcurStr.v) ---- *)
+  else if fn_is "py_int" fn then
+    match args with [VB s] => vres_i (py_int s) | _ => bad_args end
+  else if fn_is "str_int" fn then
+    match args with [VI n] => VB (str_int n) | _ => bad_args end
+  else if fn_is "parse_helper_str" fn then
+    match args with
+    | [VB s] => vres (fun '(payload, c, x, y) => VL [VB payload; vopt VB c; VI x; VI y])
+                     (parse_helper_str s)
+    | _ => bad_args end
+  else if fn_is "single_encode_str" fn then
+    match args with
+    | [VB b; VI uc] => vres_b (single_encode_str (o_sha256 H) b (zb uc))
+    | _ => bad_args end
+  else if fn_is "multi_encode_str" fn then
+    match args with
+    | [VB b; VI m; VI an] => vres vbl (multi_encode_str (o_sha256 H) b m (zb an))
+    | _ => bad_args end
+  else if fn_is "single_parse_str" fn then
+    match args with [VB s] => vres_b (single_parse_str (o_sha256 H) s) | _ => bad_args end
+  else if fn_is "multi_parse_str" fn then
+    match args with
+    | [VL l] => match vals_bytes l with
+                | Some ss => vres_b (multi_parse_str (o_sha256 H) ss)
                 | None => bad_args end
     | _ => bad_args end
   else bad_args.
